@@ -45,6 +45,10 @@ CLAIMED = {
         text="InitPos.tla models _init as its draw loop over one seeded stream; TLC checks shape, row-major stream indexing, exact consumption and the prefix property for n,d <= 3 and emits expected stream indices for a grid of sizes up to 256 x 256 and six seed classes incl. u64::MAX; the real init_with_seed / init_det / init are compared entry by entry (bit-equal to the corresponding StandardNormal draw), for purity across repeated calls and threads, seed sensitivity, and init's shape/finiteness/freshness.",
         note="Trusted: TLC, rand's SmallRng::seed_from_u64 + rand_distr::StandardNormal as the realisation of the abstract stream. 'Standard normal' is decided as stream identity, not statistically.",
         ref="DESIGN.md 4.9, 5/C18", technique="TLC model check of InitPos.tla + TLC-generated index matrices replayed into the real initialisers"),
+    "C09": dict(
+        text="Runner.tla models run() as its loops (generic run_chain under a worker pool, the batched HMC loop, the NUTS loop with its first-row convention) over chains abstracted to transition counters; TLC proves Exact / NoExtraStep / LeftAtLast / RowIsChain / Continuation for every interleaving of <=3 chains on 2 workers and every 2-call history in the bounds (an off-by-one store condition is the negative control); every call history is replayed on counting chains (4 element types, 1..32 chains) and on MetropolisHastings, GibbsSampler, HMC (both backends), NUTSChain and the multi-chain NUTS runner, and step events of counting chains under real rayon pools are trace-validated.",
+        note="Trusted: TLC; shadow clones (MH/Gibbs) and hook events hmc_end/nuts_end (HMC/NUTS) as the definition of 'state after t transitions'; bit-equality of outputs.",
+        ref="DESIGN.md 4.2, 5/C09", technique="TLC model check of Runner.tla over all interleavings + replay of TLC-generated call histories + trace validation of rayon runs (Trace_Runner)"),
 }
 
 PENDING_REASON = "check not built yet in this round (planned: see DESIGN.md section 5); not claimed until its TLC + conformance check exists"
